@@ -152,6 +152,7 @@ Proof.
   unfold join_pipeline.
   step_lift (phy_unmarshal_okerr (t_phy t)). step_lift (unmarshal_text_okerr 3 s). step_lift (unmarshal_text_okerr 8 rcv).
   destruct (pl a) eqn:Epl; cbn [pbind]; try congruence.
+  destruct (bytes_eqb _ _); cbn [pbind]; try congruence.
   assert (V : okerr (validate_up_join_mic (dk_nwkkey dk) a)).
   { unfold validate_up_join_mic, calc_up_join_mic. rewrite Epl. cbn [payload_marshal bind]. auto with okerr. }
   step_lift V. destruct (negb _); [congruence|].
@@ -171,6 +172,7 @@ Proof.
   step_lift (phy_unmarshal_okerr (t_phy t)). step_lift (unmarshal_text_okerr 3 s). step_lift (unmarshal_text_okerr 8 rcv).
   assert (J : okerr (set_join_nonce dk)) by (unfold set_join_nonce; destruct (_ || _); auto with okerr).
   destruct (pl a); cbn [pbind]; try congruence.
+  all: destruct (bytes_eqb _ _); cbn [pbind]; try congruence.
   all: step_lift J.
   all: match goal with |- pbind (lift (session_keys ?a ?b ?c ?d ?e ?f)) _ <> _ => step_lift (session_keys_okerr a b c d e f) end.
   all: match goal with |- pbind (lift (build_join_accept ?a ?b ?c ?d ?e ?f ?g ?h)) _ <> _ => step_lift (build_okerr a b c d e f g h) end.
@@ -197,10 +199,10 @@ Qed.
 
 Theorem handle_no_panic cfg b : callbacks_return cfg -> handle cfg b <> APanic.
 Proof.
-  intros C. destruct b as [|r|r]; cbn [handle]; [discriminate| |].
-  { unfold member_error. pose proof (base_decode_okerr r) as [B1 B2].
-    destruct (base_decode r); try congruence; try discriminate. repeat (destruct (bytes_eqb _ _)); discriminate. }
-  pose proof (base_decode_okerr r) as [B1 B2]. destruct (base_decode r); try congruence; try discriminate.
+  assert (EA : forall r, error_answer r <> APanic).
+  { intros r. unfold error_answer. repeat (destruct (bytes_eqb _ _)); discriminate. }
+  intros C. destruct b as [|r|r]; cbn [handle]; [discriminate|apply EA|].
+  pose proof (base_decode_okerr r) as [B1 B2]. destruct (base_decode r); try congruence; try apply EA.
   destruct (bytes_eqb _ _); [apply activation_no_panic; [exact C|apply join_pipeline_no_panic]|].
   destruct (bytes_eqb _ _); [apply activation_no_panic; [exact C|apply rejoin_pipeline_no_panic]|].
   destruct (bytes_eqb _ _); [|discriminate].
@@ -208,4 +210,45 @@ Proof.
   pose proof (field_okerr (zero_bytes 8) (unmarshal_text 8) (r_deveui r) (unmarshal_text_okerr 8)) as [F1 F2].
   destruct (field _ _ _); try congruence; try discriminate.
   destruct (get_homenetid cfg a0); discriminate.
+Qed.
+
+(* ---------- the DevEUI member must be the DevEUI of the frame (second audit, finding 1) ---------- *)
+Lemma bytes_neq_eqb a b : a <> b -> bytes_eqb a b = false.
+Proof. intros H. destruct (bytes_eqb a b) eqn:E; [|reflexivity]. apply bytes_eqb_true in E. contradiction. Qed.
+
+(* whatever device the member names (known, with whatever keys): a request whose frame is of another
+   device is refused with the mirrored answer - Success implies that the two DevEUIs agree *)
+Theorem deveui_mismatch_refused cfg r t p dk nskek aslabel askek :
+  (r_mtype r = s_JoinReq \/ r_mtype r = s_RejoinReq) -> base_decode r = Ok tt -> typed_decode r = Ok t ->
+  phy_unmarshal (t_phy t) = Ok p ->
+  match pl p with
+  | PLJoinRequest _ de _ | PLRejoin02 _ _ de _ | PLRejoin1 _ _ de _ => de <> t_deveui t
+  | _ => True
+  end ->
+  get_keys cfg (t_deveui t) = Found dk ->
+  get_kek cfg (r_sender r) = Ok nskek -> get_aslabel cfg (t_deveui t) = Ok aslabel -> get_kek cfg aslabel = Ok askek ->
+  handle cfg (Body r) = AMsg 200 (if bytes_eqb (r_mtype r) s_JoinReq then MJoinAns else MRejoinAns)
+                             (r_receiver r) (r_sender r) (r_txid r) ROther [] None no_keys None.
+Proof.
+  intros Hmt Hbase Htyped Hp Hde Hkeys Hns Has Hask.
+  cbn [handle]. rewrite Hbase.
+  destruct Hmt as [E | E]; rewrite E.
+  - replace (bytes_eqb s_JoinReq s_JoinReq) with true by reflexivity.
+    unfold handle_activation. rewrite Htyped, Hkeys, Hns, Has, Hask.
+    unfold join_pipeline. rewrite Hp. cbn [lift pbind].
+    pose proof (unmarshal_text_okerr 3 (r_sender r)) as [N1 N1'].
+    destruct (unmarshal_text 3 (r_sender r)); cbn [lift pbind]; try reflexivity; try congruence.
+    pose proof (unmarshal_text_okerr 8 (r_receiver r)) as [N2 N2'].
+    destruct (unmarshal_text 8 (r_receiver r)); cbn [lift pbind]; try reflexivity; try congruence.
+    destruct (pl p); cbn [pbind]; try reflexivity.
+    rewrite (bytes_neq_eqb _ _ Hde). reflexivity.
+  - replace (bytes_eqb s_RejoinReq s_JoinReq) with false by reflexivity.
+    replace (bytes_eqb s_RejoinReq s_RejoinReq) with true by reflexivity.
+    unfold handle_activation. rewrite Htyped, Hkeys, Hns, Has, Hask.
+    unfold rejoin_pipeline. rewrite Hp. cbn [lift pbind].
+    pose proof (unmarshal_text_okerr 3 (r_sender r)) as [N1 N1'].
+    destruct (unmarshal_text 3 (r_sender r)); cbn [lift pbind]; try reflexivity; try congruence.
+    pose proof (unmarshal_text_okerr 8 (r_receiver r)) as [N2 N2'].
+    destruct (unmarshal_text 8 (r_receiver r)); cbn [lift pbind]; try reflexivity; try congruence.
+    destruct (pl p); cbn [pbind]; try reflexivity; rewrite (bytes_neq_eqb _ _ Hde); reflexivity.
 Qed.
